@@ -636,7 +636,7 @@ func (p *Proc) Stop() {
 func (p *Proc) Faults() []string {
 	var out []string
 	for _, l := range strings.Split(p.stderr.String(), "\n") {
-		if strings.Contains(l, "panic serving") || strings.HasPrefix(l, "panic:") || strings.HasPrefix(l, "fatal error:") || strings.Contains(l, "WARNING: DATA RACE") || strings.Contains(l, "runtime error:") {
+		if strings.Contains(l, "panic serving") || strings.HasPrefix(l, "panic:") || strings.HasPrefix(l, "fatal error:") || strings.Contains(l, "WARNING: DATA RACE") {
 			out = append(out, l)
 		}
 	}
